@@ -89,6 +89,7 @@ def gen_macro(rng, prog, idx, callable_rules, global_syms):
     mac = Macro(idx)
     pnames = iter(['p%d' % i for i in range(12)])
     expr_params, sub_params, ptype = [], {}, {}
+    cur = {'shared_mnemonic': False}
     nlines = rng.range(2, 3)
     label = rng.choice(LOCAL_LABELS) if rng.chance(0.5) else None
     label_at = rng.range(0, nlines) if label else None
@@ -153,6 +154,8 @@ def gen_macro(rng, prog, idx, callable_rules, global_syms):
             mac.features.add('sub-param')
             return '{%s}' % n
         typ = o[2]
+        if typ and cur['shared_mnemonic']:
+            typ = None      # another rule with the same mnemonic may accept what this type rejects: the parameter stays untyped
         k = rng.below(100)
         if k < 35:
             ok = [q for q in expr_params if ptype[q] is None or ptype[q] == typ]
@@ -163,9 +166,15 @@ def gen_macro(rng, prog, idx, callable_rules, global_syms):
             mac.features.add('typed-position' if typ else 'textual')
             return '{%s}' % n if rng.chance(0.8) else '{ %s }' % n
         if k < 50:
-            untyped = [q for q in expr_params if ptype[q] is None]
-            n = rng.choice(untyped) if untyped and rng.chance(0.5) else new_expr_param(None)
-            mac.features.add('textual-in-expression')
+            # a TYPED parameter may be used inside a larger expression only where the position has the same type: with
+            # non-negative arguments (see add_macro_calls) the range check where the call stands then never rejects what
+            # the in-place line accepts.  The text still matters: `1 + 2` substituted into `{p} * 2` is 5, not 6.
+            fit = [q for q in expr_params if ptype[q] is None or (typ and ptype[q] == typ)]
+            if fit and rng.chance(0.5):
+                n = rng.choice(fit)
+            else:
+                n = new_expr_param(typ if (typ and rng.chance(0.5)) else None)
+            mac.features.add('typed-textual-in-expression' if ptype[n] else 'textual-in-expression')
             return rng.choice(['{%s} + %d', '{%s} * %d', '%d + {%s}'][0:2]) % (n, rng.range(1, 3)) if rng.chance(0.8) else '1 + {%s}' % n
         if k < 62:
             return str(rng.below(8)) if rng.chance(0.6) else '0x%x' % rng.below(128)
@@ -192,6 +201,7 @@ def gen_macro(rng, prog, idx, callable_rules, global_syms):
             mac.body.append(('label', label))
         ri = rng.choice(callable_rules)
         r = isa.rules[ri]
+        cur['shared_mnemonic'] = sum(1 for r2 in isa.rules if r2['m'] == r['m'] or r2['m'].startswith(r['m']) or r['m'].startswith(r2['m'])) > 1
         callee_is_macro = 'macro' in r
         if callee_is_macro:
             mac.depth = max(mac.depth, r['macro'].depth + 1)
@@ -200,6 +210,19 @@ def gen_macro(rng, prog, idx, callable_rules, global_syms):
         mac.body.append(('instr', ri, [template(o, callee_is_macro) for o in r['ops'] if o[0] != 'reg']))
     if label is not None and label_at == nlines:
         mac.body.append(('label', label))
+    # name reuse across nesting levels, on purpose: a by-value local is named like a parameter some OTHER macro has (every
+    # macro numbers its parameters p0, p1, ...), never like a parameter of this macro.  In the calling macro's block the
+    # name means that macro's argument text; in here it means this local's value.
+    own = {o[1] for o in mac.ops}
+    taken = set()
+    for j, (t, p, op, k) in enumerate(list(mac.prelude)):
+        cands = [n for n in ('p0', 'p1', 'p2', 'p3') if n not in own and n not in taken]
+        if cands and rng.chance(0.7):
+            new = rng.choice(cands)
+            taken.add(new)
+            mac.prelude[j] = (new, p, op, k)
+            mac.body = [n if n[0] == 'label' else ('instr', n[1], [a.replace('{%s}' % t, '{%s}' % new) for a in n[2]]) for n in mac.body]
+            mac.features.add('local-named-like-a-parameter')
     return mac
 
 
@@ -258,7 +281,7 @@ def add_macro_calls(rng, prog, first_macro):
         r = isa.rules[ri]
         args = [gen_arg(rng, prog, o, syms) for o in r['ops'] if o[0] != 'reg']
         if r['macro'].has_typed:
-            args = [a.replace('$', str(rng.below(10))) for a in args]
+            args = [a.replace('$', str(rng.below(10))).replace(' - ', ' + ') for a in args]
         prog.items.insert(rng.range(0, len(prog.items)), ('instr', ri, args))
 
 
@@ -675,9 +698,26 @@ def gen_fn_case(rng):
         for _ in range(rng.range(1, 2)):
             prog.items.insert(rng.range(0, max(0, len(prog.items) // 2)), ('instr', len(prog.isa.rules) - 1, [rng.choice(labs) if labs else '7']))
         feats0.add('macro-item')
+    shrinking = rng.chance(0.4)
+    if shrinking:
+        # an instruction whose size is mis-guessed in the first pass (forward reference, two candidates of different
+        # sizes) followed by a label: a function body that reads that label (or `$` behind it) has a value in pass 1
+        # that is known but WRONG
+        prog.isa.rules.append(dict(m='zsh', ops=[('expr', 'a', None, ('', ''))], prod='{ assert(a < 0x100), 0xf1 @ a`8 }', cascade=True))
+        prog.isa.rules.append(dict(m='zsh', ops=[('expr', 'a', None, ('', ''))], prod='0xff @ a`24', cascade=True))
+        fix_cuts(prog.isa)
+        at = rng.range(0, max(0, len(prog.items) // 3))
+        prog.items[at:at] = [('instr', len(prog.isa.rules) - 2, ['zend']), ('label', 'zmid')]
+        prog.items.append(('label', 'zend'))
+        feats0.add('shrinking-prefix')
+    asm_fn = rng.chance(0.35)
+    if asm_fn:
+        prog.isa.rules.append(dict(m='zem', ops=[('expr', 'x', 'u8', ('', ''))], prod='0xe0 @ x'))
+        fix_cuts(prog.isa)
+        feats0.add('asm-bodied-fn'); feats0.add('macro-item')
     # arguments are evaluated before the call whether or not the body reads them, so they must be total: only symbols
     # that are certainly integers (labels, constants defined by plain arithmetic)
-    syms = [it[1] for it in prog.items if it[0] == 'label']
+    syms = [it[1] for it in prog.items if it[0] == 'label' and it[1] != 'zend']
     grew = True
     while grew:
         grew = False
@@ -701,6 +741,10 @@ def gen_fn_case(rng):
             bsyms = (syms + ['$', '$']) if k < 70 else []
             body = gen_tree(rng, np_, pn, list(fns), bsyms, 0)
         fns.append(Fn('zf%d' % i, pn, body))
+    if shrinking:
+        pn = [rng.choice(PARAM_POOL)]
+        base_ = ('sym', 'zmid') if rng.chance(0.6) else ('sym', '$')
+        fns.append(Fn('zfm', pn, ('bin', '+', base_, ('param', 0, pn[0]))))
     feats = set(feats0)
     if any(mentions_position(f.body, syms) for f in fns):
         feats.add('position-dependent-body')
@@ -776,13 +820,61 @@ def gen_fn_case(rng):
                     ac.append(a); ae.append(a)
             insert(('instr', ri, ac), ('instr', ri, ae))
             feats.add('call-in-argument')
+    if shrinking:
+        # calls of the label-reading function with LITERAL arguments, behind the mis-guessed instruction: as an
+        # instruction operand (if the ISA has a fitting rule), as data and as a constant
+        fi = len(fns) - 1
+        mid = next(i for i, it in enumerate(items_c) if it == ('label', 'zmid'))
+        for kind in rng.shuffle(['arg', 'arg', 'data', 'const'])[:rng.range(2, 3)]:
+            t = ('call', fi, [('lit', str(rng.below(6)))])
+            tc, te = render(t, fns, 'call', None), render(t, fns, 'expand', None)
+            pos = rng.range(mid + 1, len(items_c) - 1)
+            cands = [i for i, r in enumerate(isa_c.rules) if r['ops'] and all(o[0] == 'expr' for o in r['ops']) and len(r['ops']) == 1
+                     and not r['m'].startswith('z') and 'asm {' not in r['prod'] and not r.get('cascade') and r['ops'][0][3] == ('', '') and r['ops'][0][2] in (None, 'u8', 'u16', 'i8', 'i16', 's8')]
+            if kind == 'arg' and cands:
+                ri = rng.choice(cands)
+                items_c.insert(pos, ('instr', ri, ['(' + tc + ')'])); items_e.insert(pos, ('instr', ri, ['(' + te + ')']))
+                feats.add('literal-call-in-operand-behind-shrinking-instruction')
+            elif kind == 'const':
+                items_c.insert(pos, ('const', 'kz%d' % pos, tc)); items_e.insert(pos, ('const', 'kz%d' % pos, te))
+                items_c.insert(pos + 1, ('data', 8, ['(kz%d)`8' % pos])); items_e.insert(pos + 1, ('data', 8, ['(kz%d)`8' % pos]))
+            else:
+                items_c.insert(pos, ('data', 8, [paren(tc) + '`8'])); items_e.insert(pos, ('data', 8, [paren(te) + '`8']))
+    asm_fn_text = ''
+    if asm_fn:
+        # a function whose body is an asm block using its parameters by value, called from a rule whose own parameters
+        # have the SAME names but other values (arguments swapped / offset): `{x}` in the body means the function's x
+        two = rng.chance(0.5)
+        names = rng.shuffle(['x', 'y', 'v'])[:2 if two else 1]
+        ks = [rng.range(1, 9) for _ in names]
+        lines = ['zem {%s} + %d' % (n, k) if rng.chance(0.6) else 'zem {%s}' % n for n, k in zip(names, ks)]
+        if rng.chance(0.5):
+            lines.append('zem {%s} * 2' % names[0])
+        asm_fn_text = '#fn zfa(%s) => asm\n{\n    %s\n}\n' % (', '.join(names), '\n    '.join(lines))
+        j = rng.range(1, 5)
+        call_args = ['%s + %d' % (names[-1], j)] + (['%s * 2' % names[0]] if two else [])     # swapped and offset
+        ops = [('expr', n, None, ('', '')) for n in names]
+        op8 = '0x%02x' % rng.below(256)
+        isa_c.rules.append(dict(m='zra', ops=ops, prod='%s @ zfa(%s)' % (op8, ', '.join(call_args))))
+        fresh = ['zq%d' % i for i in range(len(names))]
+        tl = [l for l in lines]
+        for n, q in zip(names, fresh):
+            tl = [l.replace('{%s}' % n, '{%s}' % q) for l in tl]
+        isa_e.rules.append(dict(m='zra', ops=ops, prod='{\n        %s\n        %s @ asm {\n            %s\n        }\n    }' % (
+            '\n        '.join('%s = %s' % (q, a) for q, a in zip(fresh, call_args)), op8, '\n            '.join(tl))))
+        fix_cuts(isa_c); fix_cuts(isa_e)
+        for _ in range(rng.range(1, 2)):
+            args = [str(rng.below(40)) if rng.chance(0.7) else (rng.choice(syms) if syms else '3') for _ in names]
+            pos = rng.range(0, len(items_c))
+            it = ('instr', len(isa_c.rules) - 1, args)
+            items_c.insert(pos, it); items_e.insert(pos, it)
     if any(has_call(f.body) for f in fns):
         feats.add('fn-calls-fn')
     pc = asm_gen.Prog(isa_c); pc.items = items_c
     pe = asm_gen.Prog(isa_e); pe.items = items_e
     pc.names = [it[1] for it in items_c if it[0] in ('label', 'const')]
     pe.names = list(pc.names)
-    fntext = ''.join(f.text(fns, multiline=rng.chance(0.3)) for f in fns)
+    fntext = ''.join(f.text(fns, multiline=rng.chance(0.3)) for f in fns) + asm_fn_text
     top = rng.chance(0.5)
     body_c = pc.text()
     text_c = (fntext + body_c) if top else (body_c + fntext)
